@@ -17,7 +17,7 @@ META = {
              "counts >= 4 or a repeated block with >= 2 relation leaves"),
     "assumptions": ["reference model qv/model.py (unroll = n copies, copy k+1 FOLLOWED_BY the latest-ending relation leaf before it)"],
     "floors": {
-        "quick": {"unrolled_programs": 3000, "late_repetition_settings": 600, "apply_modifiers_post": 3000, "idempotence_checks": 3000, "library_concatenation_checks": 40,
+        "quick": {"unrolled_programs": 3000, "late_repetition_settings": 600, "unrolled_reread_after_registry_change": 800, "apply_modifiers_post": 3000, "idempotence_checks": 3000, "library_concatenation_checks": 40,
                   "identity_outside_blocks": 5000, "time_triples_compared": 50000, "eq_multi": 20000},
         "thorough": {"unrolled_programs": 30000, "apply_modifiers_post": 30000, "library_concatenation_checks": 300},
     },
@@ -35,8 +35,12 @@ def plan(tier: str, seed: int) -> List[Dict[str, Any]]:
 
 def gen_case(rng: random.Random, cls: str) -> Dict[str, Any]:
     late = rng.random() < 0.3
-    prog = gen.gen_program(rng, cls, reps=[1, 2, 2, 3], p_sub=0.3, max_depth=2 if rng.random() < 0.7 else 3, sub_steps=(1, 4), steps=(2, 6),
+    # every fifth program may contain EMPTY sub-circuits (carrying counts like any other)
+    sub_steps = (0, 3) if rng.random() < 0.2 else (1, 4)
+    prog = gen.gen_program(rng, cls, reps=[1, 2, 2, 3], p_sub=0.3, max_depth=2 if rng.random() < 0.7 else 3, sub_steps=sub_steps, steps=(2, 6),
                            **({"p_reg_reps": 0.6} if late else {}))
+    if rng.random() < 0.35:
+        prog["reassign_registry"] = {k: rng.choice(gen.DURS) for k in gen.REG_KEYS}
     if late:
         # registry-provided counts that are set / changed AFTER the blocks were nested and before the modifiers are applied
         prog["settings"]["reps_late"] = {k: rng.choice([1, 2, 3, 4]) for k in gen.REP_KEYS if rng.random() < 0.8}
@@ -140,6 +144,18 @@ def check_program(prog: Dict[str, Any], acc: Acc, flags=None):
             t2 = snap.raw_times(ops2)
             if any(abs(a[0] - b[0]) > TOL or abs(a[1] - b[1]) > TOL for a, b in zip(before_t, t2)):
                 acc.finding("unroll/not-idempotent-times", "a second apply_modifiers changes reported times", case, None)
+        # ---- "each copy begins when the latest-ending relation leaf of what precedes it has ended" for ANOTHER duration assignment
+        #      of the same, already unrolled and listed circuit (which leaf ends last may change)
+        if prog.get("reassign_registry"):
+            for k2, v2 in prog["reassign_registry"].items():
+                ctx.duration_registry.set_registry_at(k2, v2)
+                S.reg[k2] = v2
+            stats2: Dict[str, int] = {}
+            model2 = M.unroll(built.top.mnodes, top_reps, S, stats2)
+            if not stats2.get("unroll_degenerate"):
+                acc.count("unrolled_reread_after_registry_change")
+                info2 = common.compare_times(built, acc, "unrolled-reassigned", model2, case, circuit=again)
+                common.local_equations(info2["ops"], info2["raw"], acc, case, "unrolled-reassigned")
     acc.merge_counts(contracts.drain())
     memo = memo_shadow.drain()
     if memo["discrepancy_count"]:
